@@ -665,6 +665,11 @@ r_expand(const Expansion &expansion, const vector_string &args,
           result.resize(result.size() - 1);
         }
       }
+      else if (node._stringify) {
+        // An argument that was not given stringifies to the empty string
+        // literal.
+        subst = stringify(subst);
+      }
 
       if (node._expand) {
         _parser.expand_manifests(subst, expand_undefined, ignores);
